@@ -51,32 +51,24 @@ Proof. intros [|] [c|] ext; reflexivity. Qed.
 (* ---------------------------------------------------------------------------------------- *)
 (* descriptor compatibility                                                                  *)
 
-Lemma same_fn_eq_when_both : forall (f : fn) c, same_fn_goja (Some f) (Some c) = opt_fn_eqb (Some f) (Some c).
-Proof. reflexivity. Qed.
+Lemma same_fn_goja_eq : forall d c, same_fn_goja d c = opt_fn_eqb d c.
+Proof. intros [f|] [g|]; reflexivity. Qed.
 
-Lemma compat_eq_outside_f6 : forall ext d cur,
-  desc_invalid d = false -> f6_region d cur = false -> goja_compat ext d cur = spec_compat ext d cur.
+(* after fix beda41a the two decision functions coincide on every (well-formed) descriptor *)
+Lemma compat_eq : forall ext d cur,
+  desc_invalid d = false -> goja_compat ext d cur = spec_compat ext d cur.
 Proof.
-  intros ext [dv dw de dc dg ds] [[v w e c|g s e c]|] Hinv Hf6; [| |reflexivity];
-  unfold goja_compat, spec_compat, f6_region, desc_invalid, desc_empty, is_generic, is_accessor, is_data,
-    flag_true, flag_false in *; simpl in *;
+  intros ext [dv dw de dc dg ds] [[v w e c|g s e c]|] Hinv; [| |reflexivity];
+  unfold goja_compat, spec_compat, desc_invalid, desc_empty, is_generic, is_accessor, is_data,
+    flag_true, flag_false in *; simpl in *; rewrite ?same_fn_goja_eq;
   destruct c; simpl in *; try reflexivity;
   destruct dc as [[|]|]; simpl in *; try reflexivity;
   destruct de as [[|]|], e; simpl in *; try reflexivity;
   destruct dv, dw as [[|]|], dg, ds; simpl in *; try reflexivity; try discriminate;
-  destruct w; simpl; try reflexivity; try (destruct (N.eqb _ _); reflexivity).
+  try (destruct w; simpl; try reflexivity; try (destruct (N.eqb _ _); reflexivity));
+  unfold same_fn_goja, opt_fn_eqb;
+  repeat match goal with |- context [match ?x with _ => _ end] => destruct x; simpl end; reflexivity.
 Qed.
-
-(* inside the region the two really differ: witnesses *)
-Lemma compat_refuted_honest_rejected :
-  goja_compat true (of_prop (PAcc (Some 1%N) None false false)) (Some (PAcc (Some 1%N) None false false)) = false /\
-  spec_compat true (of_prop (PAcc (Some 1%N) None false false)) (Some (PAcc (Some 1%N) None false false)) = true.
-Proof. split; reflexivity. Qed.
-
-Lemma compat_refuted_liar_accepted :
-  goja_compat true (of_prop (PAcc (Some 2%N) None false false)) (Some (PAcc (Some 1%N) None false false)) = true /\
-  spec_compat true (of_prop (PAcc (Some 2%N) None false false)) (Some (PAcc (Some 1%N) None false false)) = false.
-Proof. split; reflexivity. Qed.
 
 Lemma complete_valid : forall d, desc_invalid d = false -> desc_invalid (complete d) = false.
 Proof.
@@ -92,23 +84,21 @@ Proof.
 Qed.
 
 Lemma gopd_eq_partial : forall r cur ext,
-  match r with GDesc d => f6_region (complete d) cur || undef_accessor d = false | GUndef | GNonObj => True end ->
+  match r with GDesc d => undef_accessor d = false | GUndef | GNonObj => True end ->
   goja_gopd r cur ext = spec_gopd r cur ext.
 Proof.
   intros [|d|] cur ext H; try reflexivity.
-  apply orb_false_iff in H. destruct H as [H1 H2].
   unfold goja_gopd, spec_gopd. destruct (desc_invalid d) eqn:Hinv; [reflexivity|].
-  rewrite (compat_eq_outside_f6 ext (complete d) cur (complete_valid d Hinv) H1).
-  rewrite (goja_to_prop_eq d Hinv H2). reflexivity.
+  rewrite (compat_eq ext (complete d) cur (complete_valid d Hinv)).
+  rewrite (goja_to_prop_eq d Hinv H). reflexivity.
 Qed.
 
-Lemma define_eq_partial : forall d (r : bool) cur ext,
-  desc_invalid d = false -> (if r then f6_region d cur else false) = false ->
-  goja_define d r cur ext = spec_define d r cur ext.
+Lemma define_eq : forall d (r : bool) cur ext,
+  desc_invalid d = false -> goja_define d r cur ext = spec_define d r cur ext.
 Proof.
-  intros d [|] cur ext Hinv H; [|reflexivity].
+  intros d [|] cur ext Hinv; [|reflexivity].
   unfold goja_define, spec_define; simpl. destruct cur as [c|]; [|reflexivity].
-  rewrite (compat_eq_outside_f6 ext d (Some c) Hinv H).
+  rewrite (compat_eq ext d (Some c) Hinv).
   destruct (spec_compat ext d (Some c)); simpl; [|reflexivity].
   destruct (flag_false (d_conf d) && p_conf c); [reflexivity|].
   destruct (p_is_acc c), (p_conf c), (p_writable c), (flag_false (d_writable d)); reflexivity.
